@@ -3,8 +3,9 @@ CONSTANTS
   Cfgs = {1, 2}
   MaxT = 4
   Life = 1
-  MaxCmds = 9
+  MaxCmds = 6
   Design = "sound"
 SPECIFICATION Spec
-INVARIANTS Sys_AcceptedWasEndorsed EmitHist
+INVARIANTS EmitOnValidate
+VIEW view
 CHECK_DEADLOCK FALSE
